@@ -427,12 +427,6 @@ def mk_fn(name, *args):
         got = _ungather([xp, fp], lab_)
         if got is not None:
             args = (args[0], B(lab_, got[0]), B(lab_, got[1])) + tuple(args[3:])
-    if name == 'slice' and len(args) == 5 and args[0][0] == 'L' and args[1][0] == 'B' and args[4] == ('C', None) and args[0][1] != args[1][1] \
-            and (args[2] == ('C', None) or (args[2][0] == 'P' and Poly.from_key(args[2][1]).is_const() and Poly.from_key(args[2][1]).const_value() >= 0)):
-        # x[lo:hi] with a fixed non-negative start is the gather x[lo + i] over the new axis: pushed down to the leaves like every gather
-        new_, lab = args[0][1], args[1][1]
-        lo = Poly() if args[2] == ('C', None) else Poly.from_key(args[2][1])
-        return index_at(Poly.from_key(args[1][2]), lab, lo + Poly.atom(('sym', 'idx:' + str(new_), (new_,))))
     if name == 'compress' and len(args) == 3 and args[0][0] == 'L' and args[1][0] == 'B' and args[2][0] == 'B' and args[1][1] == args[2][1]:
         # the elements a mask selects are the elements at the positions where it holds: x[mask] == x[nonzero(mask)]
         lab = args[1][1]
@@ -921,6 +915,12 @@ def index_at(p, label, idx):
             return Poly.atom(a)
         if a[0] == 'fn' and a[1] == 'arange' and len(a) == 3 and a[2] == ('L', label):
             return idx                         # arange(n)[i] == i
+        if a[0] == 'fn' and a[1] == 'slice' and len(a) == 7 and a[2] == ('L', label) and a[3][0] == 'B' and a[6] == ('C', None) and a[3][1] != label \
+                and (a[4] == ('C', None) or (a[4][0] == 'P' and Poly.from_key(a[4][1]).is_const() and Poly.from_key(a[4][1]).const_value() >= 0)) \
+                and not (idx.is_const() and idx.const_value() < 0):
+            # element i of x[lo:hi] with a fixed non-negative start (and i counted from the front) is x[lo + i]
+            lo = Poly() if a[4] == ('C', None) else Poly.from_key(a[4][1])
+            return index_at(Poly.from_key(a[3][2]), a[3][1], lo + idx)
         return Poly.atom(('fn', 'at', ('B', label, Poly.atom(a).key()), ('P', idx.key())))
 
     def go_atom(a):
